@@ -5,3 +5,6 @@ import Props.C07
 #print axioms Webauthn.Props.C07.no_replay
 #print axioms Webauthn.Props.C07.ctr_lt
 #print axioms Webauthn.Props.C07.rpStep_mono
+#print axioms Webauthn.Props.C07.accepted_gt_start
+#print axioms Webauthn.Props.C07.accepted_strictly_increasing
+#print axioms Webauthn.Props.C07.final_state
